@@ -7,3 +7,8 @@ import Gleece.Properties.C10
 #print axioms Gleece.Validate.goPath_nil
 #print axioms Gleece.Order.run_blocks_on_error_diagnostics
 #print axioms Gleece.Order.commands_write_after_success
+#print axioms Gleece.Validate.goUrl_nodup
+#print axioms Gleece.Validate.goPath_names_nodup
+#print axioms Gleece.Validate.link_injective
+#print axioms Gleece.Validate.link_bijection_partial
+#print axioms Gleece.Validate.unaliased_outside_route_is_accepted
